@@ -22,7 +22,8 @@ TECHNIQUE = "return-path guard dominance on the CFG + mypy-typed return domains 
 
 
 def run(check: Check, repo: Repo, tier: str) -> None:
-    K.domain_guards(check, repo, ("coerce_output_value",))
+    # the input role is included for the clause that an emitted value is accepted back
+    K.domain_guards(check, repo, ("coerce_output_value", "coerce_input_value"))
     check.floor("DOMAIN-GUARDS", 5, "output coercers and helpers")
     sc = K.scalar_coercers(repo)
     mod = repo.mod("type.scalars")
